@@ -506,6 +506,9 @@ func (c *child) runScenario(sc *scenario) endInfo {
 			for time.Now().Before(deadline) && !readerBlocked() {
 				time.Sleep(2 * time.Millisecond)
 			}
+		case "waithandled":
+			// until V handler calls of the session have returned (bounded)
+			ss[i].waitCond(2*time.Second, func() bool { return ss[i].returned >= o.V })
 		case "waitwriter":
 			// until no write loop is left (bounded: with the fixes the loop rightly stays)
 			deadline := time.Now().Add(300 * time.Millisecond)
